@@ -24,6 +24,7 @@ Python has no types: the FuncSpec gives those of the parameters and, where a lit
 from __future__ import annotations
 
 import ast
+import re
 from fractions import Fraction
 from pathlib import Path
 
@@ -88,7 +89,8 @@ class FuncSpec:
 
 
 M = "M"   # 3x3 matrix of K (model type Arim.Geo.M3)
-TY = {K: "K", D: "D", I: "Int", N: "Nat", B: "Bool", M: "Arim.Geo.M3 K"}
+V = "V"   # 3-vector of K (model type Arim.P3): one point / one row of an (..., 3) array
+TY = {K: "K", D: "D", I: "Int", N: "Nat", B: "Bool", M: "Arim.Geo.M3 K", V: "Arim.P3 K"}
 
 
 def lean_type(t):
@@ -243,6 +245,11 @@ class Tr:
             if ta == M and tb == M:
                 return (f"(Arim.Geo.mmul {a} {b})", M)
             self.err(e, "matrix product of non-matrices")
+        # 3-vectors (one point of an (..., 3) array): componentwise sum and difference
+        if ta == V or tb == V:
+            if ta == V and tb == V and op in (ast.Add, ast.Sub):
+                return (f"(Arim.Geo.{'vadd' if op is ast.Add else 'vsub'} {a} {b})", V)
+            self.err(e, "operation on 3-vectors other than + and -")
         # sample data
         if ta == D or tb == D:
             if op in (ast.Add, ast.Sub) and (ta == D or isinstance(ta, Lit)) and (tb == D or isinstance(tb, Lit)):
@@ -324,6 +331,22 @@ class Tr:
             for r in e.args[0].elts:
                 rows.append("⟨" + ", ".join(self.coerce(*self.expr(x), K, x) for x in r.elts) + "⟩")
             return ("(⟨" + ", ".join(rows) + "⟩ : Arim.Geo.M3 K)", M)
+        if fsrc in ("np.einsum", "numpy.einsum") and len(e.args) == 3 and not e.keywords and isinstance(e.args[0], ast.Constant) and isinstance(e.args[0].value, str):
+            # one 3x3 matrix (per point) applied to one 3-vector (per point): the subscripts decide which index is summed
+            sub = e.args[0].value.replace(" ", "")
+            mm = re.fullmatch(r"\.\.\.([a-z])([a-z]),\.\.\.([a-z])->\.\.\.([a-z])", sub)
+            m_, tm = self.expr(e.args[1])
+            v_, tv = self.expr(e.args[2])
+            if not mm or tm != M or tv != V:
+                self.err(e, "einsum other than '...ab,...c->...d' of a 3x3 matrix and a 3-vector")
+            r_, c_, k_, o_ = mm.groups()
+            if r_ == c_:
+                self.err(e, "einsum with a repeated matrix index")
+            if k_ == c_ and o_ == r_:      # out_r = sum_c M[r][c] v[c]
+                return (f"(Arim.Geo.mulVec {m_} {v_})", V)
+            if k_ == r_ and o_ == c_:      # out_c = sum_r v[r] M[r][c]
+                return (f"(Arim.Geo.vecMul {v_} {m_})", V)
+            self.err(e, f"einsum subscripts {sub!r} are not a matrix-vector product")
         if e.keywords and fsrc not in self.reg:
             self.err(e, "keyword arguments")
         if fsrc in self.s.bind:
